@@ -137,7 +137,32 @@ def run_property(prop: str, tier: str = "quick", replay: Optional[str] = None, t
     assumed_contracts = []
     paths = 0
     t_gen = time.time()
-    for q, c in sorted(REG.contracts.items()):
+    # classes whose invariant is maintained at calls (`invariant_at_calls`): EVERY method found in the class body is
+    # verified to preserve the class invariant - methods without a contract get a default one (no pre, no post, may modify
+    # the declared mutable fields; only the inv# obligations).  Default contracts are not used at call sites.
+    auto_contracts = {}
+    for cq, cs in sorted(REG.classes.items()):
+        if not getattr(cs, "invariant_at_calls", False) or cq not in eng.repo.classes:
+            continue
+        cls_props = set()
+        for q2, c2 in REG.contracts.items():
+            if q2.startswith(cq + "."):
+                cls_props |= set(c2.props)
+        if prop not in cls_props:
+            continue
+        for mname in sorted(eng.repo.classes[cq].methods):
+            mq = cq + "." + mname
+            if mq in REG.contracts or mq in REG.inline:
+                continue
+
+            class _Auto:
+                modifies = list(cs.mutable)
+
+            from .spec import Contract
+
+            auto_contracts[mq] = Contract(mq, _Auto, [prop])
+    to_verify = sorted(list(REG.contracts.items()) + list(auto_contracts.items()))
+    for q, c in to_verify:
         if prop not in c.props:
             continue
         if not c.verify:
@@ -435,6 +460,7 @@ def run_property(prop: str, tier: str = "quick", replay: Optional[str] = None, t
             "second_opinion": second,
             "lean": lean,
             "assumed_contracts": assumed_contracts,
+            "default_contracts_invariant_only": sorted(auto_contracts),
             "contract_overrides": ["%s: %s (%s) replaced by %s (%s)" % (q_, m1_, "verified" if v1_ else "assumed", m2_,
                                                                          "verified" if v2_ else "assumed")
                                    for (q_, m1_, m2_, v1_, v2_) in getattr(REG, "overrides", [])],
